@@ -1,14 +1,19 @@
-(** C08: refutation witness (known finding D14). *)
+(** C08: examples (finding D14 is repaired: no refutation witness is left). *)
 From Verif Require Import Json Outcome Match PatIndex State CascadeSpec CascadeProofs.
 
-(** D14: removing an id that looks like a variable ("?zzz") deletes every fact
-    with a non-empty deleteWith: the id is read as a variable by the search
-    for dependents. *)
-Lemma varlike_id_refuted_witness :
+(** D14 (repaired), on the state of the former witness plus one literal
+    dependent: removing the id "?zzz", which looks like a variable, deletes
+    "dep" (its deleteWith names "?zzz") and leaves "keep" (its deleteWith
+    names "other"); before the repair the search for dependents read the id
+    as a variable and "keep" was deleted too. *)
+Lemma varlike_id_removes_literal_dependents_example :
   exists s s', st_kind s = Linear /\
     alookup "keep" (st_facts s) <> None /\ ~ Clo s "?zzz" "keep" /\
-    st_rem s "?zzz" 100 = (s', Ok false) /\ alookup "keep" (st_facts s') = None.
-Proof. exact varlike_id_refuted. Qed.
+    alookup "dep" (st_facts s) <> None /\ Clo s "?zzz" "dep" /\
+    st_rem s "?zzz" 100 = (s', Ok false) /\
+    alookup "keep" (st_facts s') = alookup "keep" (st_facts s) /\
+    alookup "dep" (st_facts s') = None.
+Proof. exact varlike_id_removes_literal_dependents. Qed.
 
 (** Non-vacuity: a three-node cycle with a dangling target is removed entirely. *)
 Definition cyc : state :=
